@@ -243,6 +243,67 @@ func TestVerifC11D(t *testing.T) {
 			}
 		}
 	}
+	// long child lists: many Periods / many S entries, sliding windows that need tens of edit operations in one list
+	if sh, _ := vh.Shard(); sh == 0 {
+		mk := func(first, n int, kind string) string {
+			var b strings.Builder
+			b.WriteString(`<MPD id="m1" type="dynamic" publishTime="2024-01-01T00:00:10Z" availabilityStartTime="1970-01-01T00:00:00Z">` + "\n")
+			b.WriteString(`<PatchLocation ttl="60">/patch/x.mpp</PatchLocation>` + "\n")
+			if kind == "periods" {
+				for i := first; i < first+n; i++ {
+					fmt.Fprintf(&b, `<Period id="P%d" start="PT%dS"><AdaptationSet id="1" contentType="video"><SegmentTemplate timescale="1" media="$Number$.m4s" startNumber="%d" duration="2"/><Representation id="v" bandwidth="1"/></AdaptationSet></Period>`+"\n", i, 2*i, i)
+				}
+			} else {
+				b.WriteString(`<Period id="P0" start="PT0S"><AdaptationSet id="1" contentType="video"><SegmentTemplate timescale="1" media="$Time$.m4s"><SegmentTimeline>`)
+				for i := first; i < first+n; i++ {
+					fmt.Fprintf(&b, `<S t="%d" d="%d"/>`, 10*i, 9+i%2)
+				}
+				b.WriteString(`</SegmentTimeline></SegmentTemplate><Representation id="v" bandwidth="1"/></AdaptationSet></Period>` + "\n")
+			}
+			b.WriteString(`</MPD>`)
+			return b.String()
+		}
+		for _, kind := range []string{"periods", "timeline"} {
+			for _, n := range []int{8, 20, 40} {
+				for _, slide := range []int{1, 3, n / 4, n / 2, n - 6, n - 1, n} {
+					for _, grow := range []int{0, 5} {
+						if slide < 0 {
+							continue
+						}
+						oldT, err1 := vref.ParseXML([]byte(mk(0, n, kind)))
+						newT, err2 := vref.ParseXML([]byte(strings.Replace(mk(slide, n+grow, kind), "00:00:10Z", "00:00:20Z", 1)))
+						if err1 != nil || err2 != nil {
+							t.Fatalf("long lists: %v %v", err1, err2)
+						}
+						desc := fmt.Sprintf("%s: %d entries, window slides by %d and grows by %d", kind, n, slide, grow)
+						rep.Hit("C11.diff")
+						rep.AddExecs(1)
+						rep.AddStates(1)
+						in := map[string]any{"case": desc}
+						doc, _, err := MPDDiff(oldT.XML(), newT.XML())
+						if err != nil {
+							rep.Violate("C11.diff", "diff-error:long-list:"+kind, fmt.Sprintf("%s: MPDDiff failed: %v", desc, err), in)
+							continue
+						}
+						pb, _ := doc.WriteToBytes()
+						pd, err := vref.ParseXML(pb)
+						if err != nil {
+							rep.Violate("C11.diff", "patch-unparsable:long-list:"+kind, err.Error(), in)
+							continue
+						}
+						res, err := vref.ApplyPatch(oldT, pd)
+						if err != nil {
+							rep.Violate("C11.diff", "patch-not-applicable:long-list:"+kind, fmt.Sprintf("%s: %v", desc, err), in)
+							continue
+						}
+						if res.Canon() != newT.Canon() {
+							rep.Violate("C11.diff", "patched-differs:long-list:"+kind, fmt.Sprintf("%s: apply(patch, old) != new", desc), in)
+						}
+					}
+				}
+			}
+		}
+	}
 	for bi, baseStr := range []string{c11Base, c11BaseDup, c11BaseSiblings} {
 		base, err := vref.ParseXML([]byte(baseStr))
 		if err != nil {
